@@ -84,6 +84,12 @@ class _FieldOfDressed:
         else:
             self.content = None
             setattr(container._xobject, self.name, value)
+            if isinstance(
+                getattr(container._XoStruct, self.name).ftype, Ref
+            ) and hasattr(container, "_dressed_" + self.name):
+                # the reference was rebound (or nulled): the dressed object
+                # kept from an earlier assignment is not what it denotes
+                delattr(container, "_dressed_" + self.name)
 
 
 class JEncoder(json.JSONEncoder):
